@@ -17,8 +17,8 @@ from typing import Any, Iterable
 
 from kv import awaits, coqio as cq, framework as fw, queue_drv as qd
 
-RULE = ('cases = (worker_limit in {None,1,2}, index toggles on/off, explorer action sequence over <=3 objects: feed / '
-        'finish / fail / advance-to-timer / advance-and-feed races / single steps / cancel); exhaustive over the macro '
+RULE = ('cases = (worker_limit in {None,1,2}, index toggles on/off, consistency_timeout 0 or >0, explorer action sequence over <=3 objects: feed / '
+        'finish / finish returning a patched resourceVersion / echo of a patch / fail / advance-to-timer / advance-and-feed races / single steps / cancel); exhaustive over the macro '
         'alphabet to a depth + random deeper ones; non-trivial iff (>= 2 objects or an idle Timeout observed) and >= 1 '
         'event processed; distinct by the label trace of the implementation')
 
@@ -48,6 +48,10 @@ def expand(m: str) -> list[tuple]:
         return [('X', u), ('S',)]
     if k == 'B':
         return [('B',), ('S',)]
+    if k == 'V':   # the processor returns a patched resourceVersion (the worker starts expecting its echo)
+        return [('V', u), ('S',)]
+    if k == 'E':   # the echo of the oldest outstanding patch arrives
+        return [('E', u), ('S',)]
     raise ValueError(m)
 
 
@@ -68,6 +72,11 @@ CORPUS = [
     (None, False, ['F0', 'C', 'T', 'T']),            # depletion timeout with a call in flight
     (None, False, ['F0', 'F0', 'X0', 'F0', 'T']),    # processor failure
     (1, False, ['B', 'F0', 'B', 'D0', 'T', 'R1', 'D1']),
+    # the processor returns patched versions (consistency_timeout 3 s): events queued behind an outstanding patch
+    (None, False, ['F0', 'F0', 'F0', 'V0', 'D0', 'D0'], 3.0),
+    (None, False, ['F0', 'F0', 'F0', 'F0', 'V0', 'V0', 'E0', 'D0', 'E0', 'D0', 'D0'], 3.0),
+    (1, False, ['F0', 'F1', 'F0', 'F0', 'V0', 'D0', 'D0', 'T', 'V1', 'E1', 'D1'], 3.0),
+    (None, True, ['F0', 'V0', 'F0', 'F0', 'E0', 'D0', 'D0', 'D0', 'T', 'T'], 3.0),
 ]
 
 
@@ -216,6 +225,8 @@ def run_case(cfgd: dict, actions: list[tuple], epilogue: bool = True) -> dict:
 
 
 ALPHABET2 = ['F0', 'F1', 'D0', 'D1', 'T', 'R0', 'R1', 'Q0', 'Q1', 'C']
+# with consistency_timeout > 0: processor calls may return a patched version (V), its echo may arrive (E)
+ALPHABET_V = ['F0', 'F1', 'V0', 'D0', 'D1', 'E0', 'T', 'R0', 'C']
 
 
 def dfs(cfgd: dict, prefix: list[str], depth: int, alphabet: list[str]) -> list[dict]:
@@ -242,15 +253,18 @@ def _work(job: tuple) -> list[dict]:
     raise ValueError(kind)
 
 
-def random_actions(r: random.Random, nuids: int, n: int) -> list[tuple]:
+def random_actions(r: random.Random, nuids: int, n: int, versions: bool = False) -> list[tuple]:
     acts: list[tuple] = []
     for _ in range(n):
         x = r.random()
         u = r.randrange(nuids)
         if x < 0.30:
-            acts.append(('F', u, r.choice([0, 0, 0, 1, 2])))
+            if versions and r.random() < 0.2:
+                acts.append(('E', u, r.choice([0, 0, 1])))
+            else:
+                acts.append(('F', u, r.choice([0, 0, 0, 1, 2])))
         elif x < 0.50:
-            acts.append(('D', u))
+            acts.append(('V', u) if versions and r.random() < 0.5 else ('D', u))
         elif x < 0.60:
             acts.append(('A',))
         elif x < 0.68:
@@ -271,8 +285,8 @@ def random_actions(r: random.Random, nuids: int, n: int) -> list[tuple]:
     return acts
 
 
-def cfgd_of(limit: int | None, indexed: bool, nuids: int) -> dict:
-    return qd.Config(limit=limit, indexed=indexed, nuids=nuids).as_dict()
+def cfgd_of(limit: int | None, indexed: bool, nuids: int, ctimeout: float = 0.0) -> dict:
+    return qd.Config(limit=limit, indexed=indexed, nuids=nuids, ctimeout=ctimeout).as_dict()
 
 
 def run(ctx: fw.Ctx) -> int:
@@ -285,18 +299,25 @@ def run(ctx: fw.Ctx) -> int:
     depth = ctx.scale(5, 6)
     nrandom = ctx.scale(1500, 30000)
     jobs: list[tuple] = []
-    jobs.append(('list', [(cfgd_of(l, ix, 2), expand_all(ms)) for l, ix, ms in CORPUS]))
+    jobs.append(('list', [(cfgd_of(c[0], c[1], 2, c[3] if len(c) > 3 else 0.0), expand_all(c[2])) for c in CORPUS]))
     for limit, indexed in [(None, False), (1, False), (2, False), (1, True)] + ([(None, True), (2, True)] if ctx.thorough else []):
         cfgd = cfgd_of(limit, indexed, 2)
         for m1 in ALPHABET2[:2]:       # every non-empty applicable sequence starts with a feed
             for m2 in ALPHABET2:
                 jobs.append(('dfs', cfgd, [m1, m2], depth, ALPHABET2))
+    # the same enumeration with patched versions returned by the processor (expected_version armed in the worker)
+    for limit in [None, 1] + ([2] if ctx.thorough else []):
+        cfgd = cfgd_of(limit, False, 2, 3.0)
+        for m1 in ALPHABET_V[:2]:
+            for m2 in ALPHABET_V:
+                jobs.append(('dfs', cfgd, [m1, m2], depth, ALPHABET_V))
     r = ctx.rng
     rnd = []
     for i in range(nrandom):
         nu = r.choice([2, 3, 3])
-        cfgd = cfgd_of(r.choice([None, 1, 2, 2]), r.random() < 0.25, nu)
-        rnd.append((cfgd, random_actions(r, nu, r.randrange(4, 15))))
+        ct = r.choice([0.0, 3.0, 3.0, 1.0])
+        cfgd = cfgd_of(r.choice([None, 1, 2, 2]), r.random() < 0.25, nu, ct)
+        rnd.append((cfgd, random_actions(r, nu, r.randrange(4, 15), versions=ct > 0)))
     for i in range(0, len(rnd), 250):
         jobs.append(('list', rnd[i:i + 250]))
 
@@ -307,11 +328,15 @@ def run(ctx: fw.Ctx) -> int:
     fw.log(f'[C01] {len(results)} scenarios run on the implementation')
 
     cases: dict[str, fw.Case] = {}
+    nbreaks = 0
     for res in results:
         data = {'cfg': res['cfg'], 'actions': res['actions']}
-        ctx.count('scenarios', 'limit=' + str(res['cfg']['limit']) + (',indexed' if res['cfg']['indexed'] else ''))
+        ctx.count('scenarios', 'limit=' + str(res['cfg']['limit']) + (',indexed' if res['cfg']['indexed'] else '') + (',versions' if res['cfg']['ctimeout'] else ''))
         for b in res['breaks']:
-            ctx.correspondence_break('T:queue driver', {'case': data, 'detail': b})
+            nbreaks += 1
+            if nbreaks <= 3:    # a few examples are enough; the total is in the histogram
+                ctx.correspondence_break('T:queue driver', {'case': data, 'detail': b})
+            ctx.count('driver_breaks', b.split(':')[0][:60])
         for f in res['fails']:
             ctx.fail(f['what'], data, f['observed'], f['expected'], sig=f['sig'])
         if res['term'] is None:
